@@ -25,3 +25,87 @@ PROPS["C11"] = dict(
     ],
     partial=[],
 )
+
+PROPS["C03"] = dict(
+    level_text="Theorems (Props/C03.lean) prove, for every list of chunks (empty and 1-byte chunks included), that the driver's buffered three-phase Murmur3 `write`/`finish` returns exactly the one-shot Cassandra MurmurHash3_x64_128 (signed tail bytes) token of the concatenation, normalised MIN->MAX (never i64::MIN); that for every permutation of bind markers the partition key is extracted in partition-key order (`(extract (pkIndexesOfWire wire) values)[seq] = values[wire[seq]]`, non-key markers skipped); that the token is murmur3Spec of the single component / of the composite encoding be16 len ++ bytes ++ 0 (and equals the CDC token under the CDC partitioner); that a composite component of >= 65536 bytes is rejected; and chunking independence of the CDC hasher. The models are tied to partitioner.rs / prepared.rs / result.rs by a differential run with model-independent oracles (chunked = one-shot, != i64::MIN, independent Cassandra reference, real-cluster vectors).",
+    level_note="Trusted: Lean kernel + {propext, Classical.choice, Quot.sound}; hand-written models Model/Murmur3.lean, Model/PartitionKey.lean (tie = differential harness: public hashers, forged PREPARED frames through deser_prepared_metadata, PreparedStatement::calculate_token/compute_partition_key via the cfg(scylla_verif) pass-through statement_from_prepared). Fidelity of murmur3Spec to Cassandra's Java is by transliteration + the four server-derived vectors (no server in the sandbox).",
+    lean_modules=["ScyllaVerif.Props.C03"],
+    rule="case = (operation, bytes, chunking) or (partitioner, pk wire order, bound values); distinct case lines whose implementation output carries a token or an error kind count as non-trivial",
+    trivial=lambda c, o: o in ("-", "bad-case"),
+    out_kind=lambda o: ("token-err" if " tok=err" in o else "token-panic" if "tok=panic" in o else "token-none" if "tok=none" in o else "token-ok") if o.startswith("pk=") else (o.split(" ", 1)[0] if o and not (o[0].isdigit() or o[0] == "-") else "value"),
+    trusted=[
+        "Model/Murmur3.lean transcribes partitioner.rs:145-313 (Wrapping<i64> on UInt64: same bit patterns, right shifts are on `as u64`), 316-381 (CDC), routing/mod.rs:38-43 (Token::new)",
+        "Model/PartitionKey.lean transcribes prepared.rs:782-860, 348-360, result.rs:976-984 (sort_unstable_by_key modelled by a stable sort; equal marker indexes are checked up to the order of equal keys), partitioner.rs:396-423",
+        "murmur3Spec = Cassandra's MurmurHash.hash3_x64_128 one-shot form by transliteration, validated by the four (string, token) vectors obtained from a real cluster (partitioner.rs tests) - `example ... := by decide +kernel` in Props/C03.lean and `vector` cases in every run",
+        "u16 arithmetic in PartitionKey::new is modelled with overflow checks on (as the harness is built): repeated marker indexes (never sent by a server) panic there, wrap in a release build",
+    ],
+    assumptions=[
+        "extract_in_pk_order / token_formula: the marker indexes of the PREPARED frame are distinct and below the number of bound values (<= 65535), every key component is bound to a value (null/unset key components are skipped by the code; the server rejects such requests)",
+        "bound_values.element_count() = col_specs.len() (enforced by serialize_values)",
+    ],
+    partial=[],
+    chunk=3000,
+)
+
+PROPS["C09"] = dict(
+    level_text="WORK IN PROGRESS",
+    level_note="WORK IN PROGRESS",
+    lean_modules=["ScyllaVerif.Props.C09"],
+    tables=True,
+    rule="distinct case lines whose implementation output is a frame or an error kind",
+    trivial=lambda c, o: o in ("bad-case",),
+    out_kind=lambda o: " ".join(w for w in o.split(" ")[:4] if not (len(w) > 24 or w.lstrip("-").isdigit())) if o.startswith("err") else o.split(" ", 1)[0],
+    trusted=[],
+    assumptions=[],
+    partial=[],
+    chunk=800,
+)
+
+PROPS["C16"] = dict(
+    level_text="Theorems (Props/C16.lean) about a generic interpreter of the code the derive macros generate, for every struct descriptor, every database field list and every value assignment (see `theorems` in the evidence). The interpreter is tied to scylla-macros by a differential run of ~50 structs compiled with the real derive macros (descriptor and struct generated from one table) over all permutations / missing / excess / duplicated / retyped columns and null patterns, with a model-independent oracle (value at its column's position, round trip, documented accept/reject rule, declared order).",
+    level_note="Trusted: Lean kernel + {propext, Classical.choice, Quot.sound}; hand-written interpreter Model/Derive.lean (tie = differential harness on the fixed family; macro expansion itself is not modelled). Field values are abstract payloads (typed encoding is C01).",
+    lean_modules=["ScyllaVerif.Props.C16"],
+    rule="case = (trait, struct descriptor, database column list, values or cells); distinct case lines count as non-trivial unless the output is bad-case",
+    trivial=lambda c, o: o.startswith("bad-case"),
+    out_kind=lambda o: " ".join(o.split(" ")[:3]) if o.startswith("err") else o.split(" ", 1)[0],
+    trusted=[
+        "Model/Derive.lean transcribes serialize/value.rs:261-553, serialize/row.rs:203-472, _macro_internal.rs:141-310, deserialize/value.rs:226-898, deserialize/row.rs:175-670 as an interpreter over a struct descriptor",
+        "value level kept abstract: i32 = 4-byte payload, String = ASCII bytes, Option None = null (typed encodings: C01)",
+    ],
+    assumptions=[],
+    partial=[],
+    chunk=4000,
+)
+
+PROPS["C02"] = dict(
+    level_text="(being built) Theorems (Props/C02.lean) over Model/StreamMap.lean + Model/Conn.lean; differential run at hook level (ResponseHandlerMap op sequences, full 32768-id exhaustion) and end-to-end (real router over an in-memory stream under a deterministic schedule).",
+    level_note="Trusted: Lean kernel; hand-written models Model/StreamMap.lean, Model/Conn.lean tied by the differential harness.",
+    lean_modules=["ScyllaVerif.Props.C02"],
+    rule="case = one operation sequence (hook level `map`, or end-to-end schedule `conn`); distinct case lines whose implementation output contains at least one routed response (`H<req>` / `ok:`) count as non-trivial",
+    trivial=lambda c, o: not ("H" in o or "ok:" in o),
+    out_kind=lambda o: ("broken" if "broken=" in o and not o.endswith("broken=-") else "conn-ok") if "| srv=" in o else ("full" if "full" in o or "/0:" not in o and "A" in o else "map"),
+    trusted=[
+        "Model/StreamMap.lean transcribes connection.rs:2296-2450 (HashMaps as association lists, orphan timestamps dropped); Model/Conn.lean transcribes connection.rs:136-223, 1541-1786 with each critical section of reader/writer/orphaner as one atomic step (they run on one task and never hold the map lock across an await)",
+        "abstract server: answers only stream ids it has received, at most once each; tokio mpsc/oneshot: FIFO, close-on-drop",
+    ],
+    assumptions=[],
+    partial=[],
+    shrink=dict(head_words=1, sep=";"),
+    chunk=1500,
+)
+
+PROPS["C18"] = dict(
+    lean_modules=["ScyllaVerif.Props.C18"],
+    level_text="Theorems (Props/C18.lean) prove, for every interleaving of any number of threads running the load / compute_next / compare_exchange loop and for every clock behaviour (stalled, repeated, backwards, pre-epoch - the clock is an arbitrary input of each compute step), that the values installed by successful CASes are strictly increasing (hence pairwise distinct, and strictly increasing along each thread's own calls), and that an explicit statement timestamp is chosen in preference to the generator. Tied to timestamp_generator.rs by single-thread runs under a scripted clock compared value by value, and multi-thread runs validated as model traces (membership) plus a distinct/increasing oracle.",
+    level_note="Trusted: Lean kernel + standard axioms; hand-written model Model/Timestamp.lean; sequential consistency of the SeqCst AtomicI64 operations; values stay below 2^63 (last + 1 does not overflow; ~year 294000); the scripted clock hook (one shadowing line in compute_next, cfg(scylla_verif)). The statement-timestamp preference (connection.rs) is proved on the model and is tied to the code only by the mock-node run of C07/C14 when present.",
+    rule="case = (single-thread script, calls) or (threads x scripts, calls); distinct case lines count as non-trivial when the clock script makes at least one reading not exceed the previous timestamp (stall / backwards / pre-epoch), i.e. the output contains two consecutive values differing by exactly 1",
+    trivial=lambda c, o: not any(b - a == 1 for part in o.split("|") for a, b in zip([int(x) for x in part.split(",") if x.lstrip("-").isdigit()], [int(x) for x in part.split(",") if x.lstrip("-").isdigit()][1:])),
+    trusted=[
+        "Model/Timestamp.lean transcribes timestamp_generator.rs:96-157 (compute_next, next_timestamp CAS loop) and the `statement.get_timestamp().or_else(generator)` choice of connection.rs",
+        "sequential consistency of AtomicI64 SeqCst load / compare_exchange (each is one atomic step of the model)",
+        "verif_hooks::clock scripted clock (thread-local), which replaces only the SystemTime::now() reading",
+    ],
+    assumptions=["timestamps stay below i64::MAX (no overflow of last + 1)", "multi-thread correspondence is membership: the observed per-thread value lists must be producible by some interleaving of the model"],
+    partial=["explicit_timestamp_wins is proved on the model; its tie to connection.rs is by the mock-node end-to-end run (C07/C14 harness), not by the hook-level check"],
+    chunk=400,
+)
